@@ -194,6 +194,8 @@ def run(case):
             except Exception as e:
                 err = err_kind(e)
             res["impl"]["err"] = err
+            res["model_req"] = {"op": "unwrap", "nonfits": True, "chain": chain_of(top)[0]}
+            res["nonfits_outcome"] = err
             if err != "TypeError":
                 fails.append(f"chain over a non-FITS base gave {err or 'a result'} (expected TypeError)")
             raise StopIteration
@@ -307,6 +309,10 @@ def run(case):
 
 def compare(case, r, m):
     err = r["impl"]["err"]
+    if case["mode"] == "nonfits":
+        if m.get("err") != "TypeError":
+            return f"model does not refuse a non-FITS base with TypeError: {m}"
+        return None if err == "TypeError" else f"implementation gave {err or 'a result'} for a non-FITS base, model says TypeError"
     if err:
         if "err" not in m:
             return f"implementation raised {err}, model returns a WCS"
